@@ -315,7 +315,7 @@ func (nc *nodeCase) randomTxs(parent string) []*txInfo {
 			outs = []outSpec{{'v', consensus.MinVoteOutputAmount + uint64(rng.Intn(1000))}, {'n', 0}}
 		case c < 5 && rest >= 3:
 			outs = []outSpec{{'n', rest / 3}, {'r', rest / 3}, {'n', 0}}
-		case c < 7 && rest >= 2*consensus.BCRPRequiredBTMAmount:
+		case (c < 7 || (ledgerSaltRange < 4 && c < 9)) && rest >= 2*consensus.BCRPRequiredBTMAmount:
 			outs = []outSpec{{'k', consensus.BCRPRequiredBTMAmount}, {'n', 0}}
 		default:
 			outs = []outSpec{{'n', rest / 2}, {'n', 0}}
@@ -326,7 +326,7 @@ func (nc *nodeCase) randomTxs(parent string) []*txInfo {
 			sum += x.amount
 		}
 		outs[len(outs)-1].amount = rest - sum
-		ti := nc.ln.buildTx([]string{in}, outs, byte(rng.Intn(4)))
+		ti := nc.ln.buildTx([]string{in}, outs, byte(rng.Intn(ledgerSaltRange)))
 		txs = append(txs, ti)
 		nc.c.Count("tx-" + string(outs[0].kind))
 		// chained spend inside the block
@@ -343,8 +343,15 @@ func (nc *nodeCase) randomTxs(parent string) []*txInfo {
 	return txs
 }
 
+// ledgerSaltRange: number of distinct contracts / retirement programs the generated
+// transactions choose from (1 or 2: the same contract is registered again and again, also
+// twice on one branch or in one block).
+var ledgerSaltRange = 4
+
 func genCaseLedger(c *Ctx, mode string) {
 	rng := c.Rng
+	ledgerSaltRange = []int{1, 2, 4}[rng.Intn(3)]
+	defer func() { ledgerSaltRange = 4 }()
 	E := uint64(2 + rng.Intn(2))
 	nc := newNodeCase(c, mode, E, 4, -1, 2)
 	defer nc.close()
